@@ -17,6 +17,7 @@ import io
 import re
 from typing import Any
 
+from liquid2 import DictLoader
 from liquid2 import RenderContext
 from liquid2.ast import BlockNode
 from liquid2.ast import ConditionalBlockNode
@@ -107,6 +108,8 @@ def extra_programs(n: grammar.Names) -> list[dict[str, Any]]:
         "base": "<{% block b %}B{{ g | upcase }}{% endblock %}|{% block c %}{% if h %}{{ arr | first }}{% endif %}{% endblock %}>",
         "mid": "{% extends 'base' %}{% block b %}M{{ block.super }}{{ h.a | default: 'd' }}{% endblock %}",
         "inc": "[{{ a }}{{ it }}{% assign made = g | append: 'x' %}{% for i in arr %}{{ i | json }}{% endfor %}]",
+        "rex": "{% extends 'rbase' %}{% block rb %}{{ it }}{{ block.super }}{% endblock %}",
+        "rbase": "[{{ a }}{% block rb %}{{ made }}{% endblock %}]",
     }
     progs = [
         "{% extends 'mid' %}{% block c %}L{{ arr | size }}{{ block.super }}{% endblock %}",
@@ -132,6 +135,15 @@ def extra_programs(n: grammar.Names) -> list[dict[str, Any]]:
         "{% macro mm a %}{% render 'inc' %}{% endmacro %}{% call mm 1 %}{% include 'inc' %}",
         # liquid tags whose last line statement is closed on the same line
         "{% liquid echo g %}{% liquid\n assign q = g\n echo q -%}{% liquid if h\n echo h.a | upcase\n endif%}",
+        # a chain rendered in an isolated scope: its templates do not see the names the root template binds
+        "{% assign a = 1 %}{% assign it = 2 %}{% capture made %}m{% endcapture %}{% render 'rex' %}",
+        "{% for a in arr %}{% render 'rex', it: a %}{% endfor %}{% assign made = 1 %}{% render 'rex' %}",
+        # arguments of filters on the LEFT of an inline condition
+        "{{ g | plus: a if h else g }}{{ arr | map: r => r[it] | join: unbound if h }}{{ g | append: \"${ made | upcase }\" if h.a else 'n' }}",
+        "{% assign q = arr | where: 'k', a | size if h else 0 %}{{ q }}{% echo g | default: it if false else g | default: made %}",
+        # a partial loaded before a sibling statement binds a name the partial reads (order of analysis matters)
+        "{% include 'inc' %}{% assign a = 1 %}{% assign it = 2 %}", "{% render 'inc' %}{% assign a = 1 %}{% capture it %}x{% endcapture %}{% include 'inc' %}",
+        "{% include 'inc' %}{% for a in arr %}{% endfor %}{% increment it %}",
         # names bound by a block are not in scope in the parts of the block that run without the binding
         "{% for it in nosuch %}{{ it }}{% else %}{{ it }}{{ forloop.index }}{% endfor %}",
         "{% tablerow a in nosuch %}{{ a }}{% endtablerow %}{{ a }}",
@@ -218,7 +230,9 @@ def check_case(case: dict[str, Any], res: ShardResult | None) -> list[tuple[str,
     extra = {"source": src, "templates": {k: v for k, v in templates.items() if k != "main"}}
     # the asynchronous twin of the analysis is a separate implementation: the same inclusions must hold for its report
     reports = [("", an)]
-    kind_a, an_a = run_solo(env.get_template("main").analyze_async())
+    # (the asynchronous analysis loads partials through a loader whose lookup really suspends)
+    env_a = impl.make_env(loader=_SlowLoader(dict(templates)))
+    kind_a, an_a = run_solo(_analyze_async(env_a))
     if kind_a == "ok":
         reports.append((":async", an_a))
         ns, na = _norm_report(an), _norm_report(an_a)
@@ -277,6 +291,19 @@ def check_case(case: dict[str, Any], res: ShardResult | None) -> list[tuple[str,
         res.count("tags_executed", len(used_tags & rep_tags))
         res.outcomes.add(h64([len(rep_vars), len(rep_filters), len(rep_tags)]))
     return out
+
+
+class _SlowLoader(DictLoader):
+    async def get_source_async(self, env: Any, template_name: str, *, context: Any = None, **kw: Any) -> Any:
+        import asyncio
+
+        await asyncio.sleep(0)
+        return self.get_source(env, template_name, context=context, **kw)
+
+
+async def _analyze_async(env: Any) -> Any:
+    t = await env.get_template_async("main")
+    return await t.analyze_async()
 
 
 def _norm_report(an: Any) -> dict[str, Any]:
@@ -374,7 +401,13 @@ def _filter_where(src: str, f: str) -> str:
     if i < 0:
         i = src.find("|" + f)
     seg = src[max(0, src.rfind("{", 0, i)) : i]
-    return "ternary" if " if " in seg or " else " in src[i : i + 80] else "plain"
+    ends = [x for x in (src.find("}}", i), src.find("%}", i)) if x >= 0]
+    after = src[i : min(ends)] if ends else src[i : i + 80]
+    # 'ternary' = a filter on the LEFT of an inline condition (' if ' follows it in the same markup): the known finding.
+    # A filter after the ' if ' (alternative branch or tail filter) is a different place.
+    if " if " in after:
+        return "ternary"
+    return "ternary-branch-or-tail" if " if " in seg else "plain"
 
 
 def run_shard(shard) -> ShardResult:
